@@ -81,7 +81,10 @@ def monitor(ctx, wide=False):
         fm = fms[(i // 3) % 3]
         feats = {"fluid": gen.GASES[(i // 3) % len(gen.GASES)]} if prof == "gas" else None
         try:
+            if prof != "heat" and i % 4 == 1:
+                feats = dict(feats or {}, pi_valve=True)                        # a pipe-attached valve with zeta != 0
             spec = gen.gen_net(ctx.rng, prof, size=None if ctx.quick else ctx.rng.randint(3, 25), features=feats)
+            spec = L.lossy_pi_valves(ctx.rng, spec)
             if prof != "heat" and (i // 3) % 2 == 0:
                 spec = L.vary_temperatures(ctx.rng, spec)          # per-junction tfluid_k
             gen.build(spec)
@@ -118,6 +121,7 @@ def monitor(ctx, wide=False):
                                "lhs": lhs, "rhs": rhs,
                                "how": "net = harness.gen.build(spec); pipeflow(net, friction_model=..., **options); "
                                       "harness.c02_law.check_net(net, friction_model)"})
+    ctx.count("Pipe.get_internal_results raised IndexError (fallback to the pit)", len(L.API_ERRORS))
     ctx.count("sections_checked", n_sec)
     ctx.count("sections_flowing", n_flow)
     ctx.count("nets_not_converged", n_nc)
